@@ -170,6 +170,21 @@ fn nest_doc(rng: &mut Rng, quick: bool) -> (DocSpec, &'static str) {
 }
 
 pub fn generate(run_seed: u64, quick: bool) -> Scenario {
+    // Concurrent callers: "never panics, aborts or fails to terminate" also
+    // holds when several caller threads use the library at overlapping times
+    // (one shared Config, trees and clones handed between threads).  One run
+    // in twenty-five borrows C10's interleaved workload - standard
+    // decorators, documents up to 32 KiB, 2-4 threads under the baton
+    // scheduler with preemption inside parsing and rendering - and judges
+    // every op by C01's oracle only (no reference, no comparison).
+    if Rng::stream(run_seed, 7).chance(1, 25) {
+        let mut s = crate::c10::generate_class(run_seed, Some(2));
+        s.property = "C01".into();
+        s.class = "concurrent".into();
+        s.repeat_check = false;
+        s.fresh_reference = false;
+        return s;
+    }
     let mut wl = Rng::stream(run_seed, 1);
     let mut fr = Rng::stream(run_seed, 2);
     let mut er = Rng::stream(run_seed, 4);
